@@ -333,8 +333,11 @@ def pattern_builder(builder: OpsetPatternBuilder):
     global _pattern_builder
     prev_builder = _pattern_builder
     _pattern_builder = builder
-    yield
-    _pattern_builder = prev_builder
+    try:
+        yield
+    finally:
+        # Restore the builder even when pattern construction raises.
+        _pattern_builder = prev_builder
 
 
 class ValuePattern:
